@@ -116,10 +116,12 @@ class ComponentsFileSystemFinder(BaseFinder):
             if not path.startswith(prefix):
                 return None
             path = path.removeprefix(prefix)
-        path = safe_join(root, path)
+        abs_path = safe_join(root, path)
+        # NOTE: Same as in `list()`, the path is validated as relative to the component dir
+        rel_path = os.path.relpath(abs_path, root)
 
-        if os.path.exists(path) and self._is_path_valid(path):
-            return path
+        if os.path.exists(abs_path) and self._is_path_valid(rel_path):
+            return abs_path
         return None
 
     # `Finder.list` is called from `collectstatic` command,
